@@ -380,6 +380,19 @@ func c20exchange(conn net.Conn, proto string, wire []byte, timeout time.Duration
 	return out[:n]
 }
 
+// c20extraReply waits briefly for another message on the connection.
+func c20extraReply(conn net.Conn, proto string) bool {
+	conn.SetDeadline(time.Now().Add(20 * time.Millisecond))
+	if proto == "t" {
+		var l [2]byte
+		_, err := io.ReadFull(conn, l[:])
+		return err == nil
+	}
+	buf := make([]byte, 512)
+	n, err := conn.Read(buf)
+	return err == nil && n > 0
+}
+
 func c20query(id uint16, name string, qt, qc uint16, buf int) []byte {
 	m := new(dns.Msg)
 	m.Id = id
@@ -522,7 +535,17 @@ func c20run(line string) (string, string) {
 				continue
 			}
 			raw := c20exchange(conn, proto, wire, 2*time.Second)
+			// exactly one reply per query: a second message on the same socket / connection would be
+			// read by the client as the answer to its next query (looked for after every reply that
+			// is not NOERROR and after every fourth query)
+			extra := false
+			if raw != nil && (len(raw) > 3 && raw[3]&0x0f != 0 || i%4 == 0) {
+				extra = c20extraReply(conn, proto)
+			}
 			conn.Close()
+			if extra {
+				fail(i, "second-reply-to-one-query")
+			}
 			netS, fit := "noreply", 1
 			var nm *dns.Msg
 			if raw != nil {
